@@ -150,6 +150,54 @@ func loadProgram(repo, specDir string) (*Program, error) {
 func (p *Program) prelude() string     { return p.preludeS }
 func (p *Program) postPrelude() string { return p.postS }
 
+// postPreludeFor returns the spec prelude with its axioms (assert lines) restricted to those whose
+// user-declared function symbols occur in the query body or in a kept definition. Dropping an
+// axiom only weakens the hypotheses; it keeps unrelated quantified axioms out of every query.
+func (p *Program) postPreludeFor(body string) string {
+	var sb strings.Builder
+	text := body
+	// definitions first (they may be referenced by the body)
+	var asserts []string
+	for _, l := range p.cs.SMT {
+		t := strings.TrimSpace(l)
+		if strings.HasPrefix(t, "(assert") {
+			asserts = append(asserts, l)
+			continue
+		}
+		sb.WriteString(l)
+		sb.WriteString("\n")
+	}
+	defs := sb.String()
+	for _, a := range asserts {
+		keep := false
+		for _, m := range symRe.FindAllString(a, -1) {
+			if _, declared := p.smtFuncs[m]; declared {
+				if _, base := baseFuncs[m]; base {
+					continue
+				}
+				if strings.Contains(text, "("+m+" ") || strings.Contains(text, " "+m+")") || strings.Contains(text, " "+m+" ") {
+					keep = true
+					break
+				}
+			}
+		}
+		if keep {
+			sb.WriteString(a)
+			sb.WriteString("\n")
+		}
+	}
+	_ = defs
+	return sb.String()
+}
+
+var baseFuncs = func() map[string]bool {
+	m := map[string]bool{}
+	for k := range parseSMTFuncs(nil) {
+		m[k] = true
+	}
+	return m
+}()
+
 // collectStrings assigns order-preserving integer codes to all string constants of the repository
 // packages and of the contracts. "" is 0; gaps leave room for other strings.
 func (p *Program) collectStrings() {
